@@ -49,6 +49,16 @@ impl Judge<'_> {
                 return;
             }
         }
+        // An accepted line must itself be consistent: declared length == data bytes, bytes sum to 0.
+        if r.is_ok() {
+            if let Some(problem) = inconsistent(damaged) {
+                self.cx.fail(
+                    format!("C02/{problem}-accepted"),
+                    format!("{kind} at {pos}: {:?} was accepted although its {problem}", String::from_utf8_lossy(damaged)),
+                );
+                return;
+            }
+        }
         // (b) through the stream reader
         let do_stream = self.stream_all || force_stream || (self.stream_sample_den > 0 && self.counter % self.stream_sample_den == 0);
         if do_stream {
@@ -86,6 +96,54 @@ impl Judge<'_> {
     }
 }
 
+/// A valid frame whose data spells out another complete frame: for some k the payload bytes
+/// after k read [length, address, type, data..] with the right length, and the bytes up to k sum
+/// to zero, so that the outer checksum is also the inner one. Ordinary traffic can contain such
+/// data (a page is arbitrary bytes); a decoder that is not anchored at the start of the line
+/// turns ONE substituted character (a ':' in the middle) into a different frame.
+fn nested_frame(cx: &Cx) -> Frame<'static> {
+    use flipdot_core::{Address, MsgType};
+    let inner_data = cx.draw(6) as usize;
+    // outer payload: [len, ah, al, ty, d0 .. d(n-1)]; inner frame starts at data index s+1
+    let s = cx.draw(4) as usize; // bytes of outer data before the inner frame (last one fixes the sum)
+    let n = s + 1 + 4 + inner_data; // fix byte + inner header (len, ah, al, ty) + inner data
+    let mut data = cx.bytes(n);
+    let addr = crate::gens::address(cx);
+    let ty = cx.draw(256) as u8;
+    data[s + 1] = inner_data as u8;
+    // bytes 0..=k of the payload must sum to 0, where k is the index (in the payload) of data[s]
+    let mut sum: u8 = (n as u8).wrapping_add((addr.0 >> 8) as u8).wrapping_add(addr.0 as u8).wrapping_add(ty);
+    for b in &data[..s] {
+        sum = sum.wrapping_add(*b);
+    }
+    data[s] = 0u8.wrapping_sub(sum);
+    Frame::new(Address(addr.0), MsgType(ty), crate::gens::data(data))
+}
+
+/// Independent look at an accepted line: Some(reason) if its declared length disagrees with its
+/// data or its bytes do not sum to zero. Lines of another shape are not judged here.
+fn inconsistent(line: &[u8]) -> Option<&'static str> {
+    let body = line.strip_suffix(b"\r\n").unwrap_or(line);
+    let hex = body.strip_prefix(b":")?;
+    if hex.len() % 2 != 0 || hex.len() < 10 {
+        return None;
+    }
+    let val = |c: u8| -> Option<u32> { (c as char).to_digit(16) };
+    let mut bytes = Vec::with_capacity(hex.len() / 2);
+    for pair in hex.chunks(2) {
+        bytes.push((val(pair[0])? * 16 + val(pair[1])?) as u8);
+    }
+    let declared = bytes[0] as usize;
+    let actual = bytes.len() - 5;
+    if declared != actual {
+        return Some("declared length disagrees with its data");
+    }
+    if bytes.iter().fold(0u8, |a, b| a.wrapping_add(*b)) != 0 {
+        return Some("checksum does not match");
+    }
+    None
+}
+
 impl Scenario for C02 {
     fn name(&self) -> &'static str {
         "c02-wire-damage"
@@ -104,7 +162,10 @@ impl Scenario for C02 {
     }
     fn run(&self, cx: &Cx) -> Result<(), Violation> {
         // Mostly short frames (cheap, complete stream path); some of maximal length.
-        let f = if cx.chance(1, 24) {
+        let f = if cx.chance(1, 6) {
+            cx.probe("frame_embedding_another_frame");
+            nested_frame(cx)
+        } else if cx.chance(1, 24) {
             let len = *cx.pick(&[255usize, 254, 128]);
             flipdot_core::Frame::new(crate::gens::address(cx), flipdot_core::MsgType(cx.draw(256) as u8), crate::gens::data(cx.bytes(len)))
         } else {
